@@ -134,6 +134,8 @@ class CorpusShufflingTool:
                 category = np.random.choice(category_weights.keys(), p=category_weights.values())
                 center = np.random.uniform(bounds_inf, bounds_sup)
                 duration = abs(np.random.normal(avg_dur, var_dur))
+                while not Segment(center - duration / 2, center + duration / 2):  # too short to be a segment
+                    duration = abs(np.random.normal(avg_dur, var_dur))
                 continuum.add(annotator,
                               Segment(center - duration / 2, center + duration / 2),
                               annotation=category)
